@@ -508,6 +508,19 @@ fn datum_calls(schema: &Schema, bytes: &[u8], plan: &SourcePlan, limit: usize, r
             apache_avro::from_avro_datum(schema, src, None).map(|_| ()).map_err(|e| e.to_string())
         }));
     }
+    // the same bytes into Rust types with their own visitors (the helper types of the crate and a
+    // few std ones): whatever the writer schema declares at that position, the answer is a value or an error
+    let typed: (&'static str, fn(&GenericDatumReader, &mut SimSource) -> Result<(), String>) = match bytes.len() % 5 {
+        0 => ("datum.read_deser<Duration>", |rd, src| rd.read_deser::<apache_avro::Duration>(src).map(|_| ()).map_err(|e| e.to_string())),
+        1 => ("datum.read_deser<Uuid>", |rd, src| rd.read_deser::<apache_avro::Uuid>(src).map(|_| ()).map_err(|e| e.to_string())),
+        2 => ("datum.read_deser<BigDecimal>", |rd, src| rd.read_deser::<apache_avro::BigDecimal>(src).map(|_| ()).map_err(|e| e.to_string())),
+        3 => ("datum.read_deser<ByteBuf>", |rd, src| rd.read_deser::<serde_bytes::ByteBuf>(src).map(|_| ()).map_err(|e| e.to_string())),
+        _ => ("datum.read_deser<Option<String>>", |rd, src| rd.read_deser::<Option<String>>(src).map(|_| ()).map_err(|e| e.to_string())),
+    };
+    out.push(observe_call(typed.0, bytes, plan, limit, |src| {
+        let rd = GenericDatumReader::builder(schema).build().map_err(|e| e.to_string())?;
+        (typed.1)(&rd, src)
+    }));
     out.push(observe_call("datum.read_deser", bytes, plan, limit, |src| {
         let rd = GenericDatumReader::builder(schema).build().map_err(|e| e.to_string())?;
         rd.read_deser::<Discard>(src).map(|_| ()).map_err(|e| e.to_string())
